@@ -9,30 +9,44 @@ C07 — data-class instances stay valid under every sequence of mutations.
 
 For every well-formed declaration `C` (any number of fields; required / optional / immutable / aliased /
 no_output / getter-property fields; every option combination), every converter world `W` that satisfies
-`Laws` (a converter's result conforms — C01's statement, taken as a hypothesis here), every value type and
-every finite history of public mutating operations on any number of instances obtained by `copy()`:
+`Laws` (a converter's result conforms — C01's statement, taken as a hypothesis here; property getters may
+raise and their results may fail to convert), every value type and every finite history of public mutating
+operations on any number of instances obtained by `copy()`.  The constructor is not modelled: `Valid` is
+assumed for the state handed to `__post_init__` (the oracle checks it on the real instance every run).
 
+Headline:
 * `C07_step`, `C07_init`, `C07_reachable`   every instance satisfies `Valid` (present fields conform, fields sit under
-  their output name, additions are of the addition type, required fields are present, attribute view and key
-  view agree) after every operation — whether it raised or not;
-* `C07_raise_unchanged`                     a single-key operation that raises leaves the instance as it was;
+  their output name, additions are of the addition type, required fields are present, a no_output field is not
+  under the keys, an output field absent from the keys is absent from `__dict__`) after every operation;
+* `C07_views_agree`, `C07_views_no_output`  what "attribute view = key view" means here and that `Valid` gives it: for
+  every alias, `in` / `[]` see the key; the attribute reads that very value, or (absent) nothing but the deferred
+  default.  A conforming constructor copy in `__dict__` of a field still under the keys is allowed: neither view shows it;
+* `C07_raise_unchanged`                     a single-key operation that raises leaves the instance as it was — including a
+  recomputed property whose result does not convert (the setter puts the state back);
 * `C07_copy_isolated`, `C07_copy_equal`     an operation on one instance changes no other; a copy equals its original;
-* `C07_immutable_step`, `C07_immutable`     immutable fields hold their initial value in every instance;
-* `C07_no_raw`                              every stored value was already there, or is a converter's output, a getter's
-  converted output, or an accepted addition;
-* `C07_fresh_step_partial`, `C07_fresh_reachable_partial`   stored properties equal their getter on the current
-  attribute values — *outside the known defect* `knownDefect` (decidable): an operation that removes a field
-  while a property computed from it stays stored.  `C07_stale_dependant_witness` shows the full statement is
-  false for the code as it is; the harness replays that witness on the real code (KNOWN-FINDING).
-* `C07_dataclass_*`                          the same for the attribute-based `DataClass`.
-* `C07_accessor_own`, `C07_dataclass_setattr_inherited`, `C07_dataclass_delattr_inherited`,
-  `C07_nested_instance_options`, `C07_nested_reachable`, `C07_nested_keeps_immutable`   an instance built as the value of a
-  field of another data class carries its own class options unless the enclosing ones `override` (and its own do not);
-  every history on it keeps `Valid` judged by its own declaration with the options it carries.
-  `C07_schema_setattr_inherited`             inheritance: the attribute of a field (declared, narrowed or inherited) reaches the
-  accessor bound to the instance's own class — own field declaration, own options — whatever the bases carry.
-* `C07_legacy_*_witness`                     the behaviour before `fixes/C07-mutators.patch` (model flag `lg = true`)
-  violates `Valid`: the five preliminary findings, as kernel-checked counter-examples.
+* `C07_immutable_step`, `C07_immutable`, `C07_class_immutable`   immutable fields hold their initial value in every
+  instance; on an `Options(immutable=True)` instance no operation changes the keys or a field's attribute;
+* `C07_no_raw`, `C07_no_raw_attrs`          every value under the keys / in `__dict__` under a field's attribute was there
+  before or is one of the operation's own arguments converted by the addressed field's type, a converted property
+  result, or an accepted addition;
+* `C07_fresh_step_partial`, `C07_fresh_init`, `C07_fresh_reachable_partial`   stored properties equal their converted getter
+  on the current attribute values — no totality assumption on getters — *outside the known defect* `knownDefect`
+  (decidable; `C07_knownDefect_succeeds`: it only flags operations that go through): an operation that removes a
+  field while a property computed from it stays stored.  `C07_stale_dependant_witness`: the full statement is false
+  for the code as it is; the harness replays that witness on the real code (KNOWN-FINDING);
+* `C07_dataclass_step/_reachable/_raise_unchanged/_immutable/_immutable_history`   the attribute-based `DataClass`;
+* `C07_accessor_own`, `C07_dataclass_setattr_inherited`, `C07_dataclass_delattr_inherited`, `C07_schema_setattr_inherited`
+  inheritance: the attribute of a field (declared, narrowed or inherited) reaches the accessor bound to the
+  instance's own class, whatever the bases carry;
+* `C07_nested_immutable_class`              an instance of an `Options(immutable=True)` class built inside a data class that
+  does not override cannot be changed by any operation.
+
+Not headline (they restate or instantiate the model; the content is tied by the correspondence run only):
+`C07_nested_instance_options_restates_model`, `C07_nested_reachable`.
+
+Witnesses: `C07_legacy_*_witness` — the behaviour before `fixes/C07-mutators.patch` and before
+`fixes/C07-recompute-failure.patch` (model flag `lg = true`) violates `Valid`, immutability, "raise ⇒ unchanged" or
+freshness, as kernel-checked counter-examples.
 
 The full statement that does not hold:
   theorem C07_fresh_step (h : Fresh C W s) : Fresh C W (step false C W s op).1        -- false, see witness
@@ -47,22 +61,38 @@ variable {V : Type} {C : Cls} {W : World V} {conf : String → V → Prop} {addO
 a valid instance stays valid. -/
 theorem C07_step (hwf : WF C) (hl : Laws W conf addOk) (s : State V) (op : Op V) (h : Valid C conf addOk s) :
     Valid C conf addOk (step false C W s op).1 :=
-  Trace.preserves (strict := false) (Valid C conf addOk) (fun s p hs hok => valid_prim hwf hl s p hs hok)
+  Trace.preserves (strict := false) (xs := op.args) (Valid C conf addOk) (fun s p hs hok => valid_prim hwf hl s p hs hok)
     (step_trace hwf s op (fun e => by cases e)) h
 
-/-- the instance the constructor hands out (`__post_init__` computes the properties) is valid -/
-theorem C07_init (hwf : WF C) (hl : Laws W conf addOk) (s : State V) (h : Valid C conf addOk s) :
-    Valid C conf addOk (postInit C W s) := by
-  unfold postInit
+/-- an invariant kept by every recomputation holds for the instance the constructor hands out -/
+theorem postInit_preserves (P : State V → Prop)
+    (hP : ∀ s p, P s → p ∈ C.fields → p.isProp = true → (coerce false C W s p).2 = false → P (co C W s p))
+    (s s' : State V) (h : P s) (hi : postInit C W s = some s') : P s' := by
+  unfold postInit at hi
   suffices ∀ (l : List Field), (∀ p ∈ l, p ∈ C.fields ∧ p.isProp = true) → ∀ s : State V,
-      Valid C conf addOk s → Valid C conf addOk (l.foldl (coerce C W) s) from
-    this _ (fun p hp => by simpa using hp) s h
+      P s → postInitList C W s l = some s' → P s' from
+    this _ (fun p hp => by simpa using hp) s h hi
   intro l
   induction l with
-  | nil => intro _ s h; exact h
+  | nil => intro _ s h hi; simp only [postInitList, Option.some.injEq] at hi; rw [← hi]; exact h
   | cons p l ih =>
-    intro hl' s h
-    exact ih (fun q hq => hl' q (by simp [hq])) _ (valid_coerce hwf hl h (hl' p (by simp)).1 (hl' p (by simp)).2)
+    intro hl' s h hi
+    simp only [postInitList] at hi
+    cases hc : coerce false C W s p with
+    | mk s1 b =>
+      rw [hc] at hi
+      cases b with
+      | true => simp at hi
+      | false =>
+        have := hP s p h (hl' p (by simp)).1 (hl' p (by simp)).2 (by rw [hc])
+        have e : co C W s p = s1 := by simp [co, hc]
+        rw [e] at this
+        exact ih (fun q hq => hl' q (by simp [hq])) s1 this hi
+
+/-- the instance the constructor hands out (`__post_init__` computes the properties) is valid -/
+theorem C07_init (hwf : WF C) (hl : Laws W conf addOk) (s s' : State V) (h : Valid C conf addOk s)
+    (hi : postInit C W s = some s') : Valid C conf addOk s' :=
+  postInit_preserves (Valid C conf addOk) (fun s p h hp hpp _ => valid_coerce hwf hl h hp hpp) s s' h hi
 
 theorem hstep_all (P : State V → Prop) (hP : ∀ s op, P s → P (step false C W s op).1) (h : List (State V))
     (op : HOp V) (hh : ∀ s ∈ h, P s) : ∀ s ∈ (hstep false C W h op).1, P s := by
@@ -98,13 +128,13 @@ theorem hrun_all (P : State V → Prop) (hP : ∀ s op, P s → P (step false C 
 
 /-- **C07 (every history).**  After any finite sequence of public mutating operations, on any number
 of instances obtained by `copy()`, every instance is valid. -/
-theorem C07_reachable (hwf : WF C) (hl : Laws W conf addOk) (s0 : State V) (h0 : Valid C conf addOk s0)
-    (ops : List (HOp V)) : ∀ s ∈ hrun false C W [postInit C W s0] ops, Valid C conf addOk s :=
+theorem C07_reachable (hwf : WF C) (hl : Laws W conf addOk) (s0 s1 : State V) (h0 : Valid C conf addOk s0)
+    (hi : postInit C W s0 = some s1) (ops : List (HOp V)) : ∀ s ∈ hrun false C W [s1] ops, Valid C conf addOk s :=
   hrun_all _ (fun s op h => C07_step hwf hl s op h) ops _ (by
     intro s hs
     simp at hs
     rw [hs]
-    exact C07_init hwf hl s0 h0)
+    exact C07_init hwf hl s0 s1 h0 hi)
 
 /-- **C07 (copies are independent).**  An operation on one instance leaves every other instance
 (the original of a copy, or a copy of it) exactly as it was. -/
@@ -123,15 +153,28 @@ theorem C07_copy_equal (h : List (State V)) (i : Nat) (s : State V) (hi : h[i]? 
 /-! ### a raising single-key operation changes nothing -/
 
 theorem fieldSetter_clean (s : State V) (f : Field) (v : V) :
-    (fieldSetter C W s f v).1 = s ∨ ∃ x, (fieldSetter C W s f v).2 = .ok x := by
+    (fieldSetter false C W s f v).1 = s ∨ ∃ x, (fieldSetter false C W s f v).2 = .ok x := by
   unfold fieldSetter
   split
   · exact Or.inl rfl
   · split
-    · exact Or.inr ⟨none, rfl⟩
+    · cases hc : coerce false C W s f with
+      | mk s1 b =>
+        cases b with
+        | true => exact Or.inl rfl
+        | false =>
+          simp only
+          cases hd : coerceDependants false C W s1 f with
+          | mk s2 b2 =>
+            cases b2 with
+            | true => exact Or.inl rfl
+            | false => exact Or.inr ⟨none, rfl⟩
     · split
       · exact Or.inl rfl
-      · exact Or.inr ⟨none, rfl⟩
+      · simp only
+        split
+        · exact Or.inl rfl
+        · exact Or.inr ⟨none, rfl⟩
 
 theorem setitem_clean (s : State V) (k : String) (v : V) :
     (setitem false C W s k v).1 = s ∨ ∃ x, (setitem false C W s k v).2 = .ok x := by
@@ -278,7 +321,7 @@ theorem C07_raise_unchanged (s : State V) (op : Op V) (e : Exc) (hk : op.singleK
 immutable field. -/
 theorem C07_immutable_step (hwf : WF C) {f : Field} (hf : f ∈ C.fields) (hi : f.immutable = true) (s : State V)
     (op : Op V) : stored (step false C W s op).1 f = stored s f :=
-  Trace.preserves (strict := false) (fun t => stored t f = stored s f)
+  Trace.preserves (strict := false) (xs := op.args) (fun t => stored t f = stored s f)
     (fun t p ht hok => by rw [stored_prim hwf hf hi t p hok]; exact ht)
     (step_trace (W := W) hwf s op (fun e => by cases e)) rfl
 
@@ -294,39 +337,39 @@ theorem C07_immutable (hwf : WF C) {f : Field} (hf : f ∈ C.fields) (hi : f.imm
 
 /-! ### nothing unparsed enters -/
 
-theorem trace_prov (hwf : WF C) {strict : Bool} {s t : State V} (h : Trace strict C W s t) : Prov C W s t := by
+theorem trace_prov (hwf : WF C) {strict : Bool} {xs : List V} {s t : State V} (h : Trace strict xs C W s t) :
+    Prov C W xs s t := by
   induction h with
-  | refl s => exact Prov.refl s
+  | refl s => exact Prov.refl xs s
   | step p hp _ ih => exact (prov_prim hwf _ p hp).trans ih
 
-/-- **C07 (no raw data).**  Every value in the instance after an operation was there before, or is the
-output of the addressed field's converter, or the converted output of a property getter, or an
-accepted addition (converted when the addition type is declared). -/
+/-- **C07 (no raw data, keys).**  Every value under the keys after an operation was there before, or is one
+of the operation's own arguments converted by the addressed field's type, or a converted property result,
+or an accepted addition (converted when the addition type is declared). -/
 theorem C07_no_raw (hwf : WF C) (s : State V) (op : Op V) (k : String) (v : V)
-    (h : (step false C W s op).1.data.get k = some v) : Origin C W s k v :=
-  trace_prov hwf (step_trace (strict := false) hwf s op (fun e => by cases e)) k v h
+    (h : (step false C W s op).1.data.get k = some v) : Origin C W op.args s k v :=
+  (trace_prov hwf (step_trace (strict := false) hwf s op (fun e => by cases e))).1 k v h
+
+/-- **C07 (no raw data, `__dict__`).**  Every value in `__dict__` under a field's attribute name (no_output
+fields) was there before or is an argument converted by that field's type; only a name that is no field can
+hold a raw argument. -/
+theorem C07_no_raw_attrs (hwf : WF C) (s : State V) (op : Op V) (a : String) (v : V)
+    (h : (step false C W s op).1.attrs.get a = some v) : OriginAttr C W op.args s a v :=
+  (trace_prov hwf (step_trace (strict := false) hwf s op (fun e => by cases e))).2 a v h
 
 /-! ### dependent properties: partial (known defect `stale-dependant-after-delete`) -/
 
-/-- **C07 (properties recomputed, partial).**  Outside `knownDefect` every stored property still
-equals its getter applied to the current attribute values after the operation. -/
-theorem C07_fresh_step_partial (hwf : WF C) (htot : ∀ p xs, (W.getter p xs).isSome = true) (s : State V) (op : Op V)
+/-- **C07 (properties recomputed, partial).**  Outside `knownDefect` every stored property still equals its
+getter (converted) applied to the current attribute values after the operation — whether the getters raise,
+their results convert, or not. -/
+theorem C07_fresh_step_partial (hwf : WF C) (s : State V) (op : Op V)
     (h : Fresh C W s) (hd : knownDefect C s op = false) : Fresh C W (step false C W s op).1 :=
-  Trace.preserves (strict := true) (Fresh C W) (fun s p hs hok => fresh_prim hwf htot s p hs hok)
+  Trace.preserves (strict := true) (xs := op.args) (Fresh C W) (fun s p hs hok => fresh_prim hwf s p hs hok)
     (step_trace hwf s op (fun _ => hd)) h
 
-theorem C07_fresh_init (hwf : WF C) (htot : ∀ p xs, (W.getter p xs).isSome = true) (s : State V)
-    (h : Fresh C W s) : Fresh C W (postInit C W s) := by
-  unfold postInit
-  suffices ∀ (l : List Field), (∀ p ∈ l, p ∈ C.fields ∧ p.isProp = true) → ∀ s : State V,
-      Fresh C W s → Fresh C W (l.foldl (coerce C W) s) from
-    this _ (fun p hp => by simpa using hp) s h
-  intro l
-  induction l with
-  | nil => intro _ s h; exact h
-  | cons p l ih =>
-    intro hl' s h
-    exact ih (fun q hq => hl' q (by simp [hq])) _ (fresh_coerce hwf htot (hl' p (by simp)).1 (hl' p (by simp)).2 h)
+theorem C07_fresh_init (hwf : WF C) (s s' : State V) (h : Fresh C W s) (hi : postInit C W s = some s') :
+    Fresh C W s' :=
+  postInit_preserves (Fresh C W) (fun s p h hp hpp hok => fresh_coerce hwf hp hpp h hok) s s' h hi
 
 /-- no operation of the history falls into the known defect (evaluated along the run) -/
 def hNoDefect (C : Cls) (W : World V) : List (State V) → List (HOp V) → Bool
@@ -339,7 +382,7 @@ def hNoDefect (C : Cls) (W : World V) : List (State V) → List (HOp V) → Bool
       | .copy _ => true) && hNoDefect C W (hstep false C W h op).1 ops
 
 /-- **C07 (properties recomputed, every history, partial).** -/
-theorem C07_fresh_reachable_partial (hwf : WF C) (htot : ∀ p xs, (W.getter p xs).isSome = true)
+theorem C07_fresh_reachable_partial (hwf : WF C)
     (ops : List (HOp V)) : ∀ h : List (State V), (∀ s ∈ h, Fresh C W s) → hNoDefect C W h ops = true →
       ∀ s ∈ hrun false C W h ops, Fresh C W s := by
   induction ops with
@@ -359,7 +402,7 @@ theorem C07_fresh_reachable_partial (hwf : WF C) (htot : ∀ p xs, (W.getter p x
         have hk : knownDefect C t o = false := by simpa [hi] using hnd.1
         rcases List.mem_or_eq_of_mem_set hs with h1 | h1
         · exact hh s h1
-        · rw [h1]; exact C07_fresh_step_partial hwf htot t o (hh t (List.mem_of_getElem? hi)) hk
+        · rw [h1]; exact C07_fresh_step_partial hwf t o (hh t (List.mem_of_getElem? hi)) hk
     | copy i =>
       simp only [hstep]
       cases hi : h[i]? with
@@ -536,6 +579,141 @@ theorem C07_dataclass_immutable (hwf : WF C) {f : Field} (hf : f ∈ C.fields) (
             simp [get_del, hna]
   | _ => rfl
 
+/-! ### class-level immutability, the two views, tightness of the known defect -/
+
+/-- **C07 (immutable class).**  On an instance governed by `Options(immutable=True)` no operation changes the
+keys or the attribute of any field, whatever the arguments (a plain instance attribute that is no field can
+still be set). -/
+theorem C07_class_immutable (hi : C.opts.immutable = true) (s : State V) (op : Op V) :
+    (step false C W s op).1.data = s.data ∧
+      ∀ f ∈ C.fields, (step false C W s op).1.attrs.get f.attname = s.attrs.get f.attname := by
+  cases op with
+  | setattr a v =>
+    simp only [step, setattr]
+    cases ha : fieldByAtt C a with
+    | some f => by_cases hp : f.isProp = true <;> simp [hp, fieldSetter, hi]
+    | none =>
+      refine ⟨rfl, ?_⟩
+      intro f hf
+      simp [get_set, fieldByAtt_none ha hf]
+  | delattr a =>
+    simp only [step, delattr]
+    cases ha : fieldByAtt C a with
+    | some f => by_cases hp : f.isProp = true <;> simp [hp, fieldDeleter, hi]
+    | none =>
+      by_cases hh : s.attrs.has a = true
+      · refine ⟨by simp [hh], ?_⟩
+        intro f hf
+        simp [hh, get_del, fieldByAtt_none ha hf]
+      · simp [hh]
+  | setitem k v => simp [step, setitem, hi]
+  | delitem k => simp [step, delitem, hi]
+  | update kvs => simp [step, update, hi]
+  | ior kvs => simp [step, update, hi]
+  | pop k d => simp [step, pop, hi]
+  | popitem => simp [step, popitem, hi]
+  | setdefault k v =>
+    simp only [step, setdefault, Bool.false_eq_true, if_false]
+    by_cases hc : contains C s k = true <;> simp [hc, setitem, hi]
+  | clear => simp [step, clear, hi]
+
+/-- `knownDefect` is tight: an operation it flags does go through (so no raising — harmless — operation is
+excluded from the partial theorems). -/
+theorem C07_knownDefect_succeeds (hwf : WF C) (s : State V) (op : Op V) (h : knownDefect C s op = true) :
+    ∃ r, (step false C W s op).2 = .ok r := by
+  unfold knownDefect at h
+  cases ht : removalTarget C s op with
+  | none => simp [ht] at h
+  | some f =>
+    simp only [ht, Bool.and_eq_true, Bool.not_eq_true', List.any_eq_true] at h
+    obtain ⟨⟨⟨⟨h1, h2⟩, h3⟩, h4⟩, q, hq, _⟩ := h
+    have hv : ∃ v, s.data.get f.name = some v := (has_iff _ _).mp h4
+    obtain ⟨v, hv⟩ := hv
+    -- a field with dependants is no property
+    have hnp : f ∈ C.fields → f.isProp = false := by
+      intro hf
+      cases hp : f.isProp with
+      | false => rfl
+      | true =>
+        rw [(hwf.propPlain f hf hp).2.2.2] at hq
+        cases hq
+    have hdel : ∀ hf : f ∈ C.fields, ∃ r, (fieldDeleter false C s f).2 = .ok r := by
+      intro _
+      exact ⟨none, by simp [fieldDeleter, h1, h2, h3, h4]⟩
+    have hpop : ∀ k d, getField C k = some f → ∃ r, (pop false C s k d).2 = .ok r := by
+      intro k d hk
+      exact ⟨some v, by simp [pop, h1, h2, h3, hk, hv]⟩
+    cases op with
+    | delattr a =>
+      simp only [removalTarget] at ht
+      have hf := (fieldByAtt_some ht).1
+      simp only [step, delattr, ht, hnp hf, Bool.false_eq_true, if_false]
+      exact hdel hf
+    | delitem k =>
+      simp only [removalTarget] at ht
+      have hf := (getField_some ht).1
+      simp only [step, delitem, h1, ht, Bool.false_eq_true, if_false]
+      exact hdel hf
+    | pop k d =>
+      simp only [removalTarget] at ht
+      exact hpop k d ht
+    | popitem =>
+      simp only [removalTarget] at ht
+      cases hl : s.data.lastKey with
+      | none => simp [hl] at ht
+      | some k =>
+        simp only [hl, Option.bind_some] at ht
+        simp only [step, popitem, h1, hl, Bool.false_eq_true, if_false]
+        exact hpop k none ht
+    | setattr _ _ => simp [removalTarget] at ht
+    | setitem _ _ => simp [removalTarget] at ht
+    | update _ => simp [removalTarget] at ht
+    | ior _ => simp [removalTarget] at ht
+    | setdefault _ _ => simp [removalTarget] at ht
+    | clear => simp [removalTarget] at ht
+
+/-- **C07 (attribute view = key view).**  Reading: the *attribute view* is what `obj.<attname>` returns, the *key
+view* what `obj[key]` / `key in obj` return for any alias of the field.  For a declared output field they
+agree: present under the keys ⇒ the attribute reads that very value; absent ⇒ the attribute raises (or gives the
+deferred default) — a `__dict__` copy never shows through.  (`__dict__` may keep the constructor's conforming
+copy of a field that is still under the keys: `Valid.confAttr`; it is not readable through either view.) -/
+theorem C07_views_agree (hwf : WF C) (s : State V) (h : Valid C conf addOk s) {f : Field} (hf : f ∈ C.fields)
+    (hp : f.isProp = false) (hno : f.noOutput = false) :
+    (∀ k ∈ f.aliases, contains C s k = s.data.has f.name ∧ getitem C s k = s.data.get f.name) ∧
+    (∀ v, s.data.get f.name = some v → getattr C W s f = some v) ∧
+    (s.data.get f.name = none → getattr C W s f = W.deferred f.name) := by
+  refine ⟨?_, ?_, ?_⟩
+  · intro k hk
+    simp [contains, getitem, getField_of_mem hwf hf hk]
+  · intro v hv
+    simp [getattr, hp, fieldGet, hv]
+  · intro hn
+    simp [getattr, hp, fieldGet, hn, h.viewsOut f hf hno hn]
+
+/-- … and a no_output field lives in the attribute view only -/
+theorem C07_views_no_output (hwf : WF C) (s : State V) (h : Valid C conf addOk s) {f : Field} (hf : f ∈ C.fields)
+    (hp : f.isProp = false) (hno : f.noOutput = true) :
+    (∀ k ∈ f.aliases, contains C s k = false) ∧
+    getattr C W s f = (s.attrs.get f.attname).orElse (fun _ => W.deferred f.name) := by
+  have hn := h.viewsNo f hf hno
+  refine ⟨?_, ?_⟩
+  · intro k hk
+    simp [contains, getField_of_mem hwf hf hk, (has_false_iff _ _).mpr hn]
+  · simp only [getattr, hp, fieldGet, hn, Bool.false_eq_true, if_false]
+    cases s.attrs.get f.attname <;> rfl
+
+/-- **C07 (DataClass, immutable, every history).** -/
+theorem C07_dataclass_immutable_history (hwf : WF C) {f : Field} (hf : f ∈ C.fields) (hi : f.immutable = true)
+    (ops : List (Op V)) : ∀ s : State V, (dcRun C W s ops).attrs.get f.attname = s.attrs.get f.attname := by
+  induction ops with
+  | nil => intro s; rfl
+  | cons op ops ih =>
+    intro s
+    simp only [dcRun, List.foldl_cons]
+    have := ih (dcStep C W s op).1
+    simp only [dcRun] at this
+    rw [this, C07_dataclass_immutable hwf hf hi s op]
+
 /-! ### inheritance: an attribute name reaches the accessor of the instance's own class -/
 
 theorem own_find_none {a : String} (h : fieldByAtt C a = none) :
@@ -600,7 +778,7 @@ theorem C07_dataclass_delattr_inherited (hwf : WF C) (hnp : ∀ f ∈ C.fields, 
 model's `setattr`, i.e. it converts with the class's own field (and the item path never used accessors). -/
 theorem C07_schema_setattr_inherited (hwf : WF C) (bases : List (List Accessor)) (s : State V) {a : String}
     {f : Field} (hfa : fieldByAtt C a = some f) (hp : f.isProp = false) (v : V) :
-    setattrVia (assignProperties C :: bases) C W s a v = setattr C W s a v := by
+    setattrVia (assignProperties C :: bases) C W s a v = setattr false C W s a v := by
   obtain ⟨hf, rfl⟩ := fieldByAtt_some hfa
   unfold setattrVia setattr
   rw [C07_accessor_own hwf bases hf hp, hfa]
@@ -611,11 +789,11 @@ theorem C07_schema_setattr_inherited (hwf : WF C) (bases : List (List Accessor))
 theorem wf_instanceCls (hwf : WF C) (enc : Option Opts) : WF (instanceCls C enc) :=
   ⟨hwf.nameMem, hwf.attMem, hwf.disjoint, hwf.propPlain, hwf.depsPlain, hwf.depsListed, hwf.depNames⟩
 
-/-- **C07 (nested instances, options).**  An instance obtained as the value of a field of another data class
-is governed by its *own* class options, exactly like a directly constructed one, unless the enclosing options
-declare `override` and its own do not; only then the enclosing immutable / ignore_required /
-ignore_delete_nonexistent apply (additions always follow the own class). -/
-theorem C07_nested_instance_options (own : Opts) (enc : Option Opts) :
+/-- Restates the model's rule `contextOptions`/`instanceOpts` (its content is the model, tied to
+`Options.make_context` by the correspondence run on nested instances): own class options unless the enclosing
+ones say `override` and the own do not; then the enclosing immutable / ignore_required /
+ignore_delete_nonexistent (additions always follow the own class). -/
+theorem C07_nested_instance_options_restates_model (own : Opts) (enc : Option Opts) :
     (enc = none → instanceOpts own enc = own) ∧
     (∀ c, enc = some c → (c.override = false ∨ own.override = true) → instanceOpts own enc = own) ∧
     (∀ c, enc = some c → c.override = true → own.override = false →
@@ -630,19 +808,25 @@ theorem C07_nested_instance_options (own : Opts) (enc : Option Opts) :
     subst h
     simp [instanceOpts, contextOptions, h1, h2]
 
-/-- **C07 (nested instances, every history).**  Wherever the instance came from, after every finite history
-every instance is valid with respect to its own class's field declarations and the options it carries. -/
-theorem C07_nested_reachable (hwf : WF C) (hl : Laws W conf addOk) (enc : Option Opts) (s0 : State V)
-    (h0 : Valid (instanceCls C enc) conf addOk s0) (ops : List (HOp V)) :
-    ∀ s ∈ hrun false (instanceCls C enc) W [postInit (instanceCls C enc) W s0] ops,
-      Valid (instanceCls C enc) conf addOk s :=
-  C07_reachable (wf_instanceCls hwf enc) hl s0 h0 ops
+/-- `C07_reachable` instantiated at the declaration a nested instance is governed by -/
+theorem C07_nested_reachable (hwf : WF C) (hl : Laws W conf addOk) (enc : Option Opts) (s0 s1 : State V)
+    (h0 : Valid (instanceCls C enc) conf addOk s0) (hi : postInit (instanceCls C enc) W s0 = some s1)
+    (ops : List (HOp V)) :
+    ∀ s ∈ hrun false (instanceCls C enc) W [s1] ops, Valid (instanceCls C enc) conf addOk s :=
+  C07_reachable (wf_instanceCls hwf enc) hl s0 s1 h0 hi ops
 
-/-- an immutable class stays immutable when nested in a mutable one that does not override -/
-theorem C07_nested_keeps_immutable (own c : Opts) (hi : own.immutable = true) (hc : c.override = false) :
-    (instanceOpts own (some c)).immutable = true := by
-  rw [(C07_nested_instance_options own (some c)).2.1 c rfl (Or.inl hc)]
-  exact hi
+/-- **C07 (nested instance of an immutable class).**  An instance of a class declared `Options(immutable=True)`
+that was built inside a data class which does not override: no operation changes its keys or a field's
+attribute (combines the option rule with `C07_class_immutable`). -/
+theorem C07_nested_immutable_class (own c : Opts) (hi : C.opts = own) (him : own.immutable = true)
+    (hc : c.override = false) (s : State V) (op : Op V) :
+    (step false (instanceCls C (some c)) W s op).1.data = s.data ∧
+      ∀ f ∈ C.fields, (step false (instanceCls C (some c)) W s op).1.attrs.get f.attname = s.attrs.get f.attname := by
+  have : (instanceCls C (some c)).opts.immutable = true := by
+    simp only [instanceCls]
+    rw [hi, (C07_nested_instance_options_restates_model own (some c)).2.1 c rfl (Or.inl hc)]
+    exact him
+  exact C07_class_immutable (C := instanceCls C (some c)) this s op
 
 end Utv.C07
 
@@ -657,7 +841,8 @@ def cv (x : Nat) : Option Nat :=
 def W₀ : World Nat where
   parse _ x := cv x
   parseAdd x := cv x
-  getter _ xs := some (xs.sum % 100)
+  getter _ xs := if xs.sum = 13 then none else some xs.sum     -- the getters raise on 13
+  convert _ raw := if raw < 50 then some raw else none          -- results of 50 and more do not convert
   deferred _ := none
 
 def conf₀ (_ : String) (v : Nat) : Prop := v < 100
@@ -674,7 +859,7 @@ def C₀ : Cls := { fields := [fB, fC, fM, fP], opts := { addition := .typed } }
 
 /-- `K(b=1, c=2, m=3)` as handed to `__post_init__`, and after it -/
 def s₀₀ : State Nat := { data := [("b", 1), ("c@", 2), ("m", 3)], attrs := [("b", 1), ("c", 2), ("m", 3)] }
-def s₀ : State Nat := postInit C₀ W₀ s₀₀
+def s₀ : State Nat := (postInit C₀ W₀ s₀₀).getD s₀₀
 
 theorem cv_lt {x v : Nat} (h : cv x = some v) : v < 100 := by
   unfold cv at h
@@ -685,12 +870,16 @@ theorem cv_lt {x v : Nat} (h : cv x = some v) : v < 100 := by
     · cases h
 
 theorem laws₀ : Laws W₀ conf₀ addOk₀ :=
-  ⟨fun _ _ _ h => cv_lt h, fun _ _ h => cv_lt h, fun _ xs v h => by
-    simp only [W₀, Option.some.injEq] at h
-    subst h
-    exact Nat.mod_lt _ (by decide)⟩
+  ⟨fun _ _ _ h => cv_lt h, fun _ _ h => cv_lt h, fun _ raw v h => by
+    simp only [W₀] at h
+    split at h
+    · simp only [Option.some.injEq] at h
+      subst h
+      unfold conf₀
+      omega
+    · cases h⟩
 
-theorem total₀ : ∀ p xs, (W₀.getter p xs).isSome = true := fun _ _ => rfl
+theorem init₀ : postInit C₀ W₀ s₀₀ = some s₀ := by decide
 
 theorem mem₀ {f : Field} (h : f ∈ C₀.fields) : f = fB ∨ f = fC ∨ f = fM ∨ f = fP := by
   simpa [C₀] using h
@@ -723,7 +912,7 @@ theorem data₀₀ {k : String} {v : Nat} (h : s₀₀.data.get k = some v) :
       · cases h
 
 theorem valid₀₀ : Valid C₀ conf₀ addOk₀ s₀₀ := by
-  refine ⟨?_, ?_, ?_, ?_, ?_, ?_, ?_⟩
+  refine ⟨?_, ?_, ?_, ?_, ?_, ?_, ?_, ?_⟩
   · intro k v f hk hg
     rcases data₀₀ hk with ⟨rfl, _⟩ | ⟨rfl, _⟩ | ⟨rfl, _⟩
     · have : getField C₀ "b" = some fB := by decide
@@ -746,6 +935,8 @@ theorem valid₀₀ : Valid C₀ conf₀ addOk₀ s₀₀ := by
     rcases mem₀ hf with rfl | rfl | rfl | rfl <;> exact absurd hn (by decide)
   · intro f hf _ hnone
     rcases mem₀ hf with rfl | rfl | rfl | rfl <;> first | decide | (exact absurd hnone (by decide))
+  · intro f hf hp
+    rcases mem₀ hf with rfl | rfl | rfl | rfl <;> first | decide | (exact absurd hp (by decide))
 
 theorem fresh₀₀ : Fresh C₀ W₀ s₀₀ := by
   intro p hp hpp v hv
@@ -756,9 +947,9 @@ theorem fresh₀₀ : Fresh C₀ W₀ s₀₀ := by
 
 /-- non-vacuity: the hypotheses of the theorems are satisfiable together, on an instance with a required,
 an aliased, an immutable and a property field -/
-example : ∃ (C : Cls) (W : World Nat) (s : State Nat), WF C ∧ Laws W conf₀ addOk₀ ∧
-    (∀ p xs, (W.getter p xs).isSome = true) ∧ Valid C conf₀ addOk₀ s ∧ Fresh C W s :=
-  ⟨C₀, W₀, s₀₀, wf₀, laws₀, total₀, valid₀₀, fresh₀₀⟩
+example : ∃ (C : Cls) (W : World Nat) (s s' : State Nat), WF C ∧ Laws W conf₀ addOk₀ ∧
+    Valid C conf₀ addOk₀ s ∧ Fresh C W s ∧ postInit C W s = some s' :=
+  ⟨C₀, W₀, s₀₀, s₀, wf₀, laws₀, valid₀₀, fresh₀₀, init₀⟩
 
 /-- … and they cover histories in which operations change the state and raise -/
 example : s₀.data = [("b", 1), ("c@", 2), ("m", 3), ("p", 2)] := by decide
@@ -768,12 +959,12 @@ example : hNoDefect C₀ W₀ [s₀] [.on 0 (.setitem "c" 1007), .on 0 (.setattr
     .on 0 (.delitem "c")] = true := by decide
 
 /-- **Known defect (stale-dependant-after-delete).**  The full freshness statement is false for the code
-as it is: deleting `c` (schema.py:373-399 recomputes nothing) leaves the property `p` stored with the
+as it is: deleting `c` (schema.py:394-420 recomputes nothing) leaves the property `p` stored with the
 value computed from the deleted `c`. -/
 theorem C07_stale_dependant_witness :
     Fresh C₀ W₀ s₀ ∧ knownDefect C₀ s₀ (.delitem "c") = true ∧
       ¬ Fresh C₀ W₀ (step false C₀ W₀ s₀ (.delitem "c")).1 := by
-  refine ⟨C07_fresh_init wf₀ total₀ s₀₀ fresh₀₀, by decide, ?_⟩
+  refine ⟨C07_fresh_init wf₀ s₀₀ s₀ fresh₀₀ init₀, by decide, ?_⟩
   intro h
   have := (h fP (by decide) rfl 2 (by decide)).1
   exact absurd this (by decide)
@@ -786,6 +977,58 @@ def C₀' : Cls := { fields := [fB', fC, fM, fP], opts := { addition := .typed, 
 
 example : (dcSetattrVia [assignProperties C₀', assignProperties C₀] W₀ s₀₀ "b" 7).2 = .err .update := by decide
 example : (dcSetattrVia [assignProperties C₀] W₀ s₀₀ "b" 7).1.attrs.get "b" = some 7 := by decide
+
+/-- non-vacuity of the hypotheses `hnp` / `hb` of `C07_dataclass_setattr_inherited` with a real base table:
+a class without properties derived from a base that declares the same attributes otherwise -/
+def C₁ : Cls := { fields := [fB', fC, fM], opts := { immutable := true } }
+def C₁base : Cls := { fields := [fB, { fC with noOutput := true }, { fM with immutable := false }] }
+
+theorem hb₁ : ∀ a, fieldByAtt C₁ a = none → resolveAccessor [assignProperties C₁base] a = none := by
+  intro a h
+  have h1 : a ≠ "b" := fun e => by subst e; exact absurd h (by decide)
+  have h2 : a ≠ "c" := fun e => by subst e; exact absurd h (by decide)
+  have h3 : a ≠ "m" := fun e => by subst e; exact absurd h (by decide)
+  have e1 : ("b" == a) = false := by simpa using fun e => h1 e.symm
+  have e2 : ("c" == a) = false := by simpa using fun e => h2 e.symm
+  have e3 : ("m" == a) = false := by simpa using fun e => h3 e.symm
+  simp [resolveAccessor, assignProperties, C₁base, fB, fC, fM, List.find?, e1, e2, e3]
+
+example : WF C₁ ∧ (∀ f ∈ C₁.fields, f.isProp = false) ∧
+    dcSetattrVia (assignProperties C₁ :: [assignProperties C₁base]) W₀ s₀₀ "b" 7 = dcSetattr C₁ W₀ s₀₀ "b" 7 := by
+  have hwf : WF C₁ := by
+    refine ⟨by decide, by decide, ?_, by decide, by decide, by decide, ?_⟩
+    · intro f hf g hg k h1 h2
+      exact (by decide : ∀ f ∈ C₁.fields, ∀ g ∈ C₁.fields, ∀ k ∈ f.aliases, k ∈ g.aliases → f = g) f hf g hg k h1 h2
+    · intro f hf q hq p hg
+      have := (by decide : ∀ f ∈ C₁.fields, ∀ q ∈ f.dependants, (getField C₁ q).all (fun p => p.name == q) = true) f hf q hq
+      rw [hg] at this
+      simpa using this
+  have hnp : ∀ f ∈ C₁.fields, f.isProp = false := by decide
+  exact ⟨hwf, hnp, C07_dataclass_setattr_inherited hwf hnp _ hb₁ s₀₀ "b" 7⟩
+
+/-! getters that raise, results that do not convert: the branches the freshness theorems now cover -/
+
+/-- `c = 13` makes the getter of `p` raise: the stale value is dropped, the assignment succeeds -/
+example : (step false C₀ W₀ s₀ (.setitem "c" 13)).1.data = [("b", 1), ("c@", 13), ("m", 3)] ∧
+    (step false C₀ W₀ s₀ (.setitem "c" 13)).2 = .ok none := by decide
+
+/-- `c = 77` gives a result that does not convert: the assignment raises and nothing changed -/
+example : step false C₀ W₀ s₀ (.setitem "c" 77) = (s₀, .err .parse) := by decide
+
+/-- Before `fixes/C07-recompute-failure.patch`: the error left the instance with `c` already assigned and `p`
+computed from the old `c` — a raising single-key operation that changed the data. -/
+theorem C07_legacy_raise_after_update_witness :
+    (step true C₀ W₀ s₀ (.setitem "c" 77)).2 = .err .parse ∧
+      (step true C₀ W₀ s₀ (.setitem "c" 77)).1.data = [("b", 1), ("c@", 77), ("m", 3), ("p", 2)] := by decide
+
+/-- Before the repair: a raising getter left the old value of the property stored (stale without any deletion). -/
+theorem C07_legacy_stale_on_getter_error_witness :
+    (step true C₀ W₀ s₀ (.setitem "c" 13)).1.data = [("b", 1), ("c@", 13), ("m", 3), ("p", 2)] ∧
+      ¬ Fresh C₀ W₀ (step true C₀ W₀ s₀ (.setitem "c" 13)).1 := by
+  refine ⟨by decide, ?_⟩
+  intro h
+  have := (h fP (by decide) rfl 2 (by decide)).1
+  exact absurd this (by decide)
 
 /-! the behaviour before `fixes/C07-mutators.patch` (`lg = true`) -/
 
